@@ -253,6 +253,13 @@ def dict_pop(ex, path, d, ca, node):
     if not isinstance(k, S):
         raise Unsupported("dict.pop non-str key")
     has = z3.Select(path.sel("dict.has", d.e), k.e)
+    if len(ca.pos) > 1 and isinstance(ca.pos[1], (O, NoneV, B, I)):
+        # pop(key, default): one path, the value is a conditional (no fork)
+        v = z3.If(has, z3.Select(path.sel("dict.val", d.e), k.e), ref_of(ca.pos[1]))
+        path.store("dict.has", d.e, z3.Store(path.sel("dict.has", d.e), k.e, False))
+        dflt = ca.pos[1]
+        t = dflt.cls if isinstance(dflt, O) and dflt.cls not in ("Val",) else _elem(d.cls, 1)
+        return [(path, wrap(t if t != "bool" else "Val", v))]
     out = []
     for p, bv in ex.branch(path, has):
         if bv:
